@@ -122,7 +122,7 @@ def jobs(tier, seed):
     from . import c12 as _c12
     for fn, cls in _c12.dispatchers('x86-rt'):
         for L in (0, 1, 8, 16, 17, 33, 40):
-            params = {'variants': ['x86-rt'], 'fn': fn, 'cls': cls, 'L': L, 'tag': 'runtime', 'fixed': ({i: NOTAB for i in range(L)} if cls == 'value' else None), 'prop': P, 'xcheck_every': 0}
+            params = {'variants': ['x86-rt'], 'fn': fn, 'cls': cls, 'L': L, 'tag': 'runtime', 'fixed': ({i: NOTAB for i in range(L)} if cls == 'value' else None), 'prop': P, 'xcheck_every': 12}
             jb = Job(f'cell-{fn.split("::")[-1]}-L{L}', 'mirse.props.c12.leaf_scan', params, bud, f'{fn}: CPU features symbolic, cache cell = any reachable value at every atomic operation, {L}-byte symbolic buffer: '
                      'returns normally, exact stop, only enters target_feature functions the CPU has', family='cell-' + cls, groups=['ref'])
             jb.small = True; J.append(jb)
